@@ -32,7 +32,7 @@
   (`encoding_rs`, `procfs-core`, `time`, `uuid`, `range-map`) are not modelled; for them the
   `read` engine's oracle (catch_unwind + counting allocator + time budget) is a sampled check.
 -/
-import MdProofs.Lemmas.BytesStreams
+import MdProofs.Lemmas.BytesCount
 namespace MdModel.Dump
 open MdModel MdModel.Gen.Layouts
 
@@ -165,6 +165,20 @@ theorem alloc_backed_tiny (ms : MemSizes) (hms : ms.Bounded) (b : Bytes) (h : b.
   have := alloc_backed ms hms b (by unfold SliceLen; omega) a ha
   unfold K at this
   omega
+
+/-- **C01.3'** The number of allocations is linear in the file length: a constant per stream plus
+    a constant per list entry the stream is long enough to hold. -/
+theorem alloc_count_bound (ms : MemSizes) (b : Bytes) :
+    (readAll ms b).allocs.length ≤ 21 + 10 * (b.size / 8) :=
+  cnt_readAll ms b
+
+/-- **C01.3''** "memory use is at most quadratic in the input size": the sum of ALL allocation
+    requests of `readAll` (an upper bound of the peak) is at most
+    `(21 + 10·⌊len/8⌋) · 32 · len  ≤  40·len² + 672·len` bytes. -/
+theorem alloc_total_quadratic (ms : MemSizes) (hms : ms.Bounded) (b : Bytes) (hsz : SliceLen b.size) :
+    totalBytes (readAll ms b).allocs ≤ (21 + 10 * (b.size / 8)) * (K * b.size) := by
+  have h1 : ∀ a ∈ (readAll ms b).allocs, a.bytes ≤ K * b.size := fun a ha => alloc_backed ms hms b hsz a ha
+  exact Nat.le_trans (totalBytes_le _ _ h1) (Nat.mul_le_mul_right _ (alloc_count_bound ms b))
 
 /-! ## 4. "always terminates": the directory loop -/
 
